@@ -1,6 +1,7 @@
 # flake8: noqa F405
 import logging
 
+from copy import copy
 from datetime import datetime
 from typing import Any, Callable, Dict, List, Optional, Tuple, Union, Type
 
@@ -104,6 +105,11 @@ def rule(*patterns: Union[str, Predicate]) -> Callable[[Any], ProductionRule]:
                 # matched but failed: 31.04., 30.02.2019, ...
                 return None
             if res is not None:
+                if any(res is a for a in args):
+                    # absorbing rules hand back one of their arguments, which
+                    # is still part of other partial parses: the wider span
+                    # belongs to the new production only
+                    res = copy(res)
                 # upon a successful production, update the span
                 # information by expanding it to that of all args
                 res.update_span(*args)
